@@ -186,6 +186,20 @@ func (s *Sim) spoilPayout(b types.Block, kind string) types.Block {
 			}
 		}
 		b.MinerPayouts[0].Value = b.MinerPayouts[0].Value.Sub(fees)
+	case "payout-wrap-early", "payout-wrap-mid", "payout-wrap-last":
+		// two outputs of 2^127 beside the honest payout(s): the 128-bit sum wraps to the honest amount
+		half := types.NewCurrency(0, 1<<63)
+		addr := b.MinerPayouts[0].Address
+		h1, h2 := types.SiacoinOutput{Value: half, Address: addr}, types.SiacoinOutput{Value: half, Address: addr}
+		honest := b.MinerPayouts[0]
+		switch kind {
+		case "payout-wrap-early": // the wrap happens in the second of four additions
+			b.MinerPayouts = []types.SiacoinOutput{h1, h2, {Value: honest.Value.Sub(one), Address: addr}, {Value: one, Address: addr}}
+		case "payout-wrap-mid": // ... in the second of three
+			b.MinerPayouts = []types.SiacoinOutput{h1, h2, honest}
+		default: // ... in the last
+			b.MinerPayouts = []types.SiacoinOutput{honest, h1, h2}
+		}
 	case "payout-split":
 		v := b.MinerPayouts[0].Value
 		b.MinerPayouts[0].Value = v.Sub(one)
